@@ -128,6 +128,117 @@ pub fn gen_driver(prop: &str, rng: &mut Rng, sh: &mut Shards, out: &str, thoroug
                 progs.push((p, Layout::random(rng)));
             }
         }
+        "C18" => {
+            let mov16 = |r: &'static str, v: u16| Item::Ins(Ins::Mov { w: 16, dst: Opnd::Reg16(r), src: Opnd::Imm(v as i32) });
+            let mov8 = |r: &'static str, v: u8| Item::Ins(Ins::Mov { w: 8, dst: Opnd::Reg8(r), src: Opnd::Imm(v as i32) });
+            let setseg = |s: &'static str, v: u16| vec![Item::Ins(Ins::Mov { w: 16, dst: Opnd::Reg16("ax"), src: Opnd::Imm(v as i32) }), Item::Ins(Ins::Mov { w: 16, dst: Opnd::Sreg(s), src: Opnd::Reg16("ax") })];
+            let line_of = |rng: &mut Rng, len: usize, newline: bool| -> ScriptLine {
+                let raw: String = (0..len).map(|i| (b'a' + ((i as u64 + rng.below(26)) % 26) as u8) as char).collect();
+                ScriptLine { raw, newline, cls: "data", what: None }
+            };
+            // every supported service under random registers / buffers / stdin shapes
+            for i in 0..(260 * scale) {
+                let mut items: Vec<Item> = vec![Item::Label("start".into())];
+                let mut stdin: Vec<ScriptLine> = Vec::new();
+                let nsvc = 1 + rng.below(3) as usize;
+                for _ in 0..nsvc {
+                    let seg = *rng.pick(&[0u16, 0x0100, 0x1000, 0xF000, 0xFFFF, 0xFFF0, 0xFFEF, 0x8000]);
+                    match (i + rng.below(5) as usize) % 5 {
+                        0 => {
+                            // INT 10h / 0Ah: AL repeated CX times
+                            items.push(mov16("cx", *rng.pick(&[0u16, 1, 2, 7, 80, 300])));
+                            items.push(mov16("bx", rng.u16()));
+                            items.push(mov8("al", *rng.pick(&[b'A', b'z', b' ', b'0', 0x7F, 0x80, 0xE9, 0xFF, b'\n', 9, 0])));
+                            items.push(mov8("ah", 0x0A));
+                            items.push(Item::Ins(Ins::Int { n: 0x10 }));
+                        }
+                        1 => {
+                            // INT 10h / 13h: DL blanks, then CX bytes at ES:BP
+                            items.extend(setseg("es", seg));
+                            let bp = match rng.below(4) { 0 => 0xFFF8u16.wrapping_add(rng.below(16) as u16), 1 => rng.below(32) as u16, _ => rng.u16() };
+                            items.push(mov16("bp", bp));
+                            // put some text there first (through ES)
+                            for k in 0..(rng.below(6) as u16) {
+                                items.push(Item::Ins(Ins::Mov { w: 8, dst: Opnd::Mem { seg: "es", base: "bp", index: "", disp: k as i32, has_disp: true }, src: Opnd::Imm(*rng.pick(&[b'H', b'i', b'!', b' ', 0xC3, b'x']) as i32) }));
+                            }
+                            items.push(mov16("cx", *rng.pick(&[0u16, 1, 5, 6, 20, 40])));
+                            items.push(mov16("dx", ((rng.u8() as u16) << 8) | *rng.pick(&[0u16, 1, 3, 40])));
+                            items.push(mov8("al", rng.u8()));
+                            items.push(mov8("ah", 0x13));
+                            items.push(Item::Ins(Ins::Int { n: 0x10 }));
+                        }
+                        2 => {
+                            // INT 21h / 01h: first byte of the next line
+                            items.push(mov16("ax", 0x0100 | rng.u8() as u16));
+                            items.push(Item::Ins(Ins::Int { n: 0x21 }));
+                            match rng.below(4) {
+                                0 => {}
+                                1 => stdin.push(line_of(rng, 0, true)),
+                                2 => { let n = 1 + rng.below(5) as usize; stdin.push(line_of(rng, n, true)) }
+                                _ => { let n = 1 + rng.below(5) as usize; stdin.push(line_of(rng, n, false)) }
+                            }
+                        }
+                        3 => {
+                            // INT 21h / 02h: DL
+                            items.push(mov8("dl", *rng.pick(&[b'Q', b'\n', b' ', 0x80, 0xFF, 0, b'7'])));
+                            items.push(mov16("ax", 0x0200 | rng.u8() as u16));
+                            items.push(Item::Ins(Ins::Int { n: 0x21 }));
+                        }
+                        _ => {
+                            // INT 21h / 0Ah: buffered line input at DS:DX
+                            items.extend(setseg("ds", seg));
+                            let dx = match rng.below(4) { 0 => 0xFFF0u16.wrapping_add(rng.below(16) as u16), 1 => rng.below(16) as u16, _ => 0x100 + rng.below(0x8000) as u16 };
+                            let cap = *rng.pick(&[0u8, 1, 2, 5, 8, 255]);
+                            items.push(mov16("dx", dx));
+                            items.push(mov16("bx", dx));
+                            items.push(Item::Ins(Ins::Mov { w: 8, dst: Opnd::Mem { seg: "", base: "bx", index: "", disp: 0, has_disp: false }, src: Opnd::Imm(cap as i32) }));
+                            items.push(mov16("ax", 0x0A00 | rng.u8() as u16));
+                            items.push(Item::Ins(Ins::Int { n: 0x21 }));
+                            let c = cap as usize;
+                            match rng.below(7) {
+                                0 => {}
+                                1 => stdin.push(line_of(rng, 0, true)),
+                                2 => stdin.push(line_of(rng, c.saturating_sub(1), true)),
+                                3 => stdin.push(line_of(rng, c, true)),
+                                4 => stdin.push(line_of(rng, c + 1, true)),
+                                5 => { let n = c + 1 + rng.below(300) as usize; stdin.push(line_of(rng, n, true)) }
+                                _ => { let n = 1 + rng.below(10) as usize; stdin.push(line_of(rng, n, false)) }
+                            }
+                            // show what arrived (DS-relative print)
+                            if rng.chance(1, 2) && seg < 0xF000 {
+                                items.push(Item::Ins(Ins::Print { what: PrintWhat::Range(seg as u32 * 16 + dx as u32 % 0x8000, seg as u32 * 16 + dx as u32 % 0x8000 + 12) }));
+                            }
+                        }
+                    }
+                }
+                items.push(Item::Ins(Ins::Print { what: PrintWhat::Reg }));
+                let last = stdin.len().saturating_sub(1);
+                for (k, s) in stdin.iter_mut().enumerate() {
+                    if k != last {
+                        s.newline = true;
+                    }
+                }
+                progs.push((Program { data: Vec::new(), items, interp: false, stdin, note: "services".into() }, Layout::plain()));
+            }
+            // every AH value for both interrupts (unsupported ones must be reported and stop the program)
+            for n in [0x10u32, 0x21] {
+                for ah in 0..256u32 {
+                    if !thorough && ah % 4 != 0 && ![1u32, 2, 10, 0x13, 9, 11, 0x12, 0x14].contains(&ah) {
+                        continue;
+                    }
+                    let items = vec![
+                        Item::Label("start".into()),
+                        mov16("cx", 2),
+                        mov16("dx", 0x0041),
+                        mov16("ax", ((ah as u16) << 8) | 0x42),
+                        Item::Ins(Ins::Int { n }),
+                        Item::Ins(Ins::Print { what: PrintWhat::Reg }),
+                    ];
+                    let stdin = vec![ScriptLine { raw: "xyz".into(), newline: true, cls: "data", what: None }];
+                    progs.push((Program { data: Vec::new(), items, interp: false, stdin, note: format!("ah-{}-{}", n, ah) }, Layout::plain()));
+                }
+            }
+        }
         _ => panic!("harness: no driver workload for {}", prop),
     }
     // degenerate shapes: nothing after `start:`, only a halt, a label as the very last thing,
